@@ -22,14 +22,18 @@ Next == t + Shards <= N /\ t' = t + Shards
 Spec == Init /\ [][Next]_t
 
 Changes(o) == o[1] \in {"tok", "prefix", "infix", "postfix", "inst", "mode"}
-\* indices (into trees) of parse calls that follow an earlier parse with no change of the builder between
-RECURSIVE RepeatPairs(_, _, _, _, _)
-RepeatPairs(ops, i, nparse, lastClean, acc) ==
+\* A parser is configured when it is built: by the last explicit "build" since the previous parse, or
+\* else by the parse call itself.  BuildPos: for every parse call (in order) the index of that op.
+RECURSIVE BuildPos(_, _, _, _)
+BuildPos(ops, i, pending, acc) ==
   IF i > Len(ops) THEN acc
-  ELSE IF ops[i][1] = "parse" THEN RepeatPairs(ops, i + 1, nparse + 1, nparse + 1,
-                                               IF lastClean > 0 THEN acc \cup {<<lastClean, nparse + 1>>} ELSE acc)
-  ELSE IF Changes(ops[i]) THEN RepeatPairs(ops, i + 1, nparse, 0, acc)
-  ELSE RepeatPairs(ops, i + 1, nparse, lastClean, acc)
+  ELSE IF ops[i][1] = "build" THEN BuildPos(ops, i + 1, i, acc)
+  ELSE IF ops[i][1] = "parse" THEN BuildPos(ops, i + 1, 0, Append(acc, IF pending > 0 THEN pending ELSE i))
+  ELSE BuildPos(ops, i + 1, pending, acc)
+\* pairs of consecutive parse calls whose parsers were built with no change of the builder in between
+RepeatPairs(ops, i, nparse, lastClean, acc) ==
+  LET bp == BuildPos(ops, 1, 0, <<>>) IN
+  {<<k, k + 1>> : k \in {m \in 1..(Len(bp) - 1) : \A x \in bp[m]..bp[m + 1] : ~Changes(ops[x])}}
 
 SchedFailures(r) ==
   (IF \A j \in 1..Len(r.jobs) : r.inter[j] = r.solo[j] THEN {} ELSE {"result_depends_on_other_instances"})
@@ -37,6 +41,11 @@ SchedFailures(r) ==
   \cup (IF \A j \in 1..Len(r.jobs) : \A pr \in RepeatPairs(r.jobs[j].ops, 1, 0, 0, {}) :
               pr[2] > Len(r.solo[j].trees) \/ r.solo[j].trees[pr[1]] = r.solo[j].trees[pr[2]]
         THEN {} ELSE {"parsers_of_one_builder_differ"})
+  \* a parser is configured at Build() time: what is done to its builder afterwards does not reach it
+  \* (refs[k]: the same parse by a parser of a fresh builder in the build-time configuration)
+  \cup (IF \A j \in 1..Len(r.jobs) : \A k \in 1..Len(r.solo[j].refs) :
+              r.solo[j].refs[k] = "" \/ k > Len(r.solo[j].trees) \/ r.solo[j].refs[k] = r.solo[j].trees[k]
+        THEN {} ELSE {"parser_follows_later_changes_of_its_builder"})
 
 CodeOf(s) == s.code
 OrderFailures(r) ==
